@@ -390,7 +390,7 @@ func (c *Client) exec(s *Step) error {
 			return err
 		}
 		return c.h1recv(s)
-	case "h2await":
+	case "h2await", "h2headers":
 		return c.h2await(s)
 	case "h2ping":
 		// wait for the acknowledgement of the barrier PING (payload starts with 0xfc)
@@ -733,6 +733,13 @@ func (c *Client) h2await(s *Step) error {
 		ok := true
 		for _, id := range s.Streams {
 			st := c.Streams[id]
+			if s.Kind == "h2headers" {
+				// only the response's header block (or the end of the stream) is waited for
+				if st == nil || !(st.Headers > 0 || st.Ended || st.RST) {
+					ok = false
+				}
+				continue
+			}
 			if st == nil || !(st.Ended || st.RST) {
 				ok = false
 			}
